@@ -104,3 +104,63 @@ func (c *Conn) fail() {
 
 // SetReadDeadline passes through.
 func (c *Conn) SetReadDeadline(t time.Time) error { return c.Conn.SetReadDeadline(t) }
+
+// EOFConn makes the transport behave like crypto/tls (TLS <= 1.2) or any
+// io.Reader that uses the contract's liberty to return the final bytes together
+// with the end-of-stream error: Read returns (n > 0, io.EOF) when the peer has
+// closed and the remaining data fits the caller's buffer.
+type EOFConn struct {
+	net.Conn
+	mu   sync.Mutex
+	cond *sync.Cond
+	buf  []byte
+	err  error
+	hold bool // while set, Read blocks even if data is there (lets the test line up data + close)
+}
+
+// NewEOFConn starts pumping c.
+func NewEOFConn(c net.Conn) *EOFConn {
+	e := &EOFConn{Conn: c}
+	e.cond = sync.NewCond(&e.mu)
+	go func() {
+		tmp := make([]byte, 4096)
+		for {
+			n, err := c.Read(tmp)
+			e.mu.Lock()
+			e.buf = append(e.buf, tmp[:n]...)
+			if err != nil {
+				e.err = err
+			}
+			e.cond.Broadcast()
+			e.mu.Unlock()
+			if err != nil {
+				return
+			}
+		}
+	}()
+	return e
+}
+
+// Hold makes Read block until Release, whatever has arrived.
+func (e *EOFConn) Hold() { e.mu.Lock(); e.hold = true; e.mu.Unlock() }
+
+// Release ends Hold.
+func (e *EOFConn) Release() { e.mu.Lock(); e.hold = false; e.cond.Broadcast(); e.mu.Unlock() }
+
+func (e *EOFConn) Read(p []byte) (int, error) {
+	e.mu.Lock()
+	defer e.mu.Unlock()
+	for e.hold || (len(e.buf) == 0 && e.err == nil) {
+		e.cond.Wait()
+	}
+	n := copy(p, e.buf)
+	e.buf = e.buf[n:]
+	if len(e.buf) == 0 && e.err != nil {
+		return n, e.err // the last bytes together with the error
+	}
+	return n, nil
+}
+
+// SetReadDeadline is not forwarded (the pump owns the underlying reads); the
+// broker's keep-alive does not matter for these short scenarios.
+func (e *EOFConn) SetReadDeadline(t time.Time) error { return nil }
